@@ -206,7 +206,7 @@ def shard(ctx):
 
 
 def replay(case):
-    run = do_count(case['blt'], case['options'], budget=200.0)
+    run = stream.replay_run(case, budget=200.0)
     if run.timed_out:
         return [('nontermination-suspected:' + case['options']['rule'], 'budget exceeded on replay')]
     return [(k, m) for k, m, _ in check(run, case['options'])]
